@@ -304,6 +304,17 @@ func exploreSpec(r *core.Run, s Spec, depth int, maxStates int) {
 		return
 	}
 	ops := opAlphabet(l, r.Thorough())
+	if hasOver(s) {
+		// the end of a window that is longer than its source is the declared length, not the
+		// number of bits that exist: seeks relative to the end are not part of this model
+		var o2 []Op
+		for _, o := range ops {
+			if !(o.K == "seek" && o.Whence == 2) {
+				o2 = append(o2, o)
+			}
+		}
+		ops = o2
+	}
 	k0, f0, pv0 := runHistory(s, nil, true)
 	if pv0 != nil || f0 != nil {
 		r.Violate("build:"+s.Kinds(), fmt.Sprintf("building %s: %v %v", s, f0, pv0), Case{Kind: "compose", Spec: &s})
